@@ -1,7 +1,7 @@
 #!/usr/bin/env python3
 """Print the prompt given to an independent mutation sub-agent for one property (property text only; nothing else from /verif)."""
 import json,sys
-pid=sys.argv[1]; wt=sys.argv[2]
+pid=sys.argv[1]; wt=sys.argv[2]; avoid=sys.argv[3] if len(sys.argv)>3 else ''
 for l in open('/verif/properties.jsonl'):
     p=json.loads(l)
     if p['id']==pid: break
@@ -15,7 +15,7 @@ This is the semantic property that users rely on:
   Statement: {p['statement']}
   Quantified over: {p['quantifier']['text']}
 
-Your task: produce ONE small source change (a realistic regression, e.g. what a plausible refactoring, optimisation or "cleanup" commit could introduce - a few lines, in non-test .go files) to the repository that BREAKS this property while (a) the repository still compiles (`go build ./...`) and (b) the EXISTING tests still pass (at least all tests of the packages you touched and of the packages that directly exercise that code - run them with `go test -vet=off -count=1 <pkgs>`; they must pass unchanged; do not edit or delete existing tests). The change must need something SPECIFIC to manifest - an unusual input (boundary value, zero-length period, simultaneous events, equal identities, particular rounding), a multi-step sequence of operations, a particular interleaving/ordering, or two cooperating sites that each look fine alone - NOT something ordinary use would expose at once. Prefer changes in the core mechanism code the statement is about.
+Your task: produce ONE small source change (a realistic regression, e.g. what a plausible refactoring, optimisation or "cleanup" commit could introduce - a few lines, in non-test .go files) to the repository that BREAKS this property while (a) the repository still compiles (`go build ./...`) and (b) the EXISTING tests still pass (at least all tests of the packages you touched and of the packages that directly exercise that code - run them with `go test -vet=off -count=1 <pkgs>`; they must pass unchanged; do not edit or delete existing tests). The change must need something SPECIFIC to manifest - an unusual input (boundary value, zero-length period, simultaneous events, equal identities, particular rounding), a multi-step sequence of operations, a particular interleaving/ordering, or two cooperating sites that each look fine alone - NOT something ordinary use would expose at once. Prefer changes in the core mechanism code the statement is about.{(" An earlier exercise already changed " + avoid + "; choose a DIFFERENT file and a different mechanism behind the same property (another code path, module or message the statement also covers).") if avoid else ""}
 
 Also write a demonstration: a NEW Go test file (name it zz_demo_test.go, in the package where it fits best; it may use the package's existing test helpers) containing a test that FAILS with your change applied and PASSES on the original code. Verify both directions yourself. IMPORTANT: never use `git stash` (the stash is shared with sibling worktrees used by other people); to test without your change use `git diff > /tmp/my_{pid}.patch && git apply -R /tmp/my_{pid}.patch` and re-apply with `git apply /tmp/my_{pid}.patch`.
 
